@@ -122,7 +122,22 @@ def _int(ex, st, op, a, b, ca, cb, line):
     raise Unsupported("int-mode op %s with non-constant operand (line %s); use bv mode" % (type(op).__name__, line))
 
 
+class _NoObl:
+    """stands in for the executor while a `c.wrapping(...)` target is computed: add/sub/mul/shl wrap silently"""
+    def __init__(self, ex):
+        self._ex = ex
+
+    def oblige(self, st, kind, *a, **k):
+        if kind != "overflow":
+            return self._ex.oblige(st, kind, *a, **k)
+
+    def __getattr__(self, n):
+        return getattr(self._ex, n)
+
+
 def _bv(ex, st, op, a, b, ca, cb, line):
+    if getattr(ex, "wrap_ok", 0):
+        ex = _NoObl(ex)
     x, y = a.t, b.t
     w = T.width()
     if isinstance(op, ast.Add):
